@@ -930,14 +930,14 @@ class Interp:
         if d == 'builtins.map':
             fn = args[0]
             its = [self.iterate(a) for a in args[1:]]
-            return [self.call(fn, list(t), {}) for t in zip(*its)]
+            return GenList([self.call(fn, list(t), {}) for t in zip(*its)])
         if d == 'builtins.filter':
             fn = args[0]
             out = []
             for x in self.iterate(args[1]):
                 if self.truth(x if fn is None else self.call(fn, [x], {})):
                     out.append(x)
-            return out
+            return GenList(out)
         if d == 'builtins.len':
             a = args[0]
             if is_abstract(a):
@@ -1134,6 +1134,11 @@ class Interp:
             return Unknown('iter').abs_iter(self)
         if isinstance(v, GenVal):
             return list(v.items)
+        if isinstance(v, GenList):
+            # a generator / map / filter object is exhausted by the first pass over it
+            items = list(v)
+            del v[:]
+            return items
         if isinstance(v, dict):
             return list(v.keys())
         if isinstance(v, (list, tuple, str, set, frozenset, range)):
